@@ -10,9 +10,9 @@ from ansi_string import AnsiString, AnsiStr, AnsiFormat, AnsiSetting
 
 LEVEL = 'model_checking'
 
-TEXTS = ('ab', 'a b', 'Ab\tc', '', 'aXa ')
-SETS = ('red', 'bold', '[38;5;9', ['bold', 'red'])
-ARGS = ('', 'a', 'b', ' ', 'ab', 'X')
+TEXTS = ('a b', 'Ab\tc', '')
+SETS = ('red', ['bold', '[38;5;9'])
+ARGS = ('', 'a', 'b', ' ', 'ab')
 
 
 def receiver(ti, si, ri):
@@ -24,7 +24,8 @@ def receiver(ti, si, ri):
         st = choose(si, SETS)
         if st is None:
             return None
-        r = choose(ri, ranges(len(t)))
+        rs = ranges(len(t))
+        r = choose(ri, (rs[0], rs[len(t) - 1], rs[-1], rs[len(t)]))      # first char, whole text, last char, inner
         if r is None:
             return None
         s.apply_formatting(st, r[0], r[1])
@@ -118,6 +119,28 @@ STR_ARG = ('lstrip', 'rstrip', 'strip', 'partition', 'rpartition', 'removeprefix
 SUB_ARGS = ('count', 'find', 'rfind', 'index', 'rindex', 'endswith')
 
 
+SIMPLE_NAMES = NOARG_COPY + NOARG_QUERY + STR_ARG + SUB_ARGS + (
+    'clear_formatting', 'simplify', 'center', 'ljust', 'rjust', 'zfill', 'replace', 'replace-ansistring', 'replace-ansistr',
+    'split', 'rsplit', 'splitlines', 'expandtabs', 'encode', 'to_str', '__format__', '__iter__', '__add__', '__iadd__', 'join',
+    '__eq__', 'base_str', 'format_matching', 'unformat_matching', 'apply_formatting_for_match', 'add-ansistring', 'add-ansistr')
+
+
+def uses(name):
+    """Which of the palette arguments (a, b, k) a shared method consumes."""
+    if name in NOARG_COPY or name in NOARG_QUERY or name in ('clear_formatting', 'simplify', 'encode', '__iter__', '__eq__', 'base_str'):
+        return ''
+    if name in STR_ARG or name in ('__add__', '__iadd__', 'add-ansistring', 'add-ansistr', '__format__', 'apply_formatting_for_match'):
+        return 'a'
+    if name in SUB_ARGS or name in ('center', 'ljust', 'rjust', 'replace-ansistring', 'replace-ansistr', 'split', 'rsplit', 'to_str',
+                                    'format_matching', 'unformat_matching'):
+        return 'ak'
+    if name in ('zfill', 'splitlines', 'expandtabs'):
+        return 'k'
+    if name == 'join':
+        return 'ab'
+    return 'abk'
+
+
 def h_range(ti: int, si: int, ri: int, m: int, sel: int, c: Optional[int], d: Optional[int], top: bool):
     """Methods taking a range: apply/remove_formatting, clip, slicing, find_settings."""
     s = receiver(ti, si, ri)
@@ -176,10 +199,7 @@ def h_simple(ti: int, si: int, ri: int, m: int, ai: int, bi: int, k: int):
     s = receiver(ti, si, ri)
     if s is None:
         return None
-    names = NOARG_COPY + NOARG_QUERY + STR_ARG + SUB_ARGS + (
-        'clear_formatting', 'simplify', 'center', 'ljust', 'rjust', 'zfill', 'replace', 'replace-ansistring', 'replace-ansistr',
-        'split', 'rsplit', 'splitlines', 'expandtabs', 'encode', 'to_str', '__format__', '__iter__', '__add__', '__iadd__', 'join',
-        '__eq__', 'base_str', 'format_matching', 'unformat_matching', 'apply_formatting_for_match', 'add-ansistring', 'add-ansistr')
+    names = SIMPLE_NAMES
     name = choose(m, names)
     if name is None:
         return None
@@ -189,7 +209,7 @@ def h_simple(ti: int, si: int, ri: int, m: int, ai: int, bi: int, k: int):
     b = choose(bi, ARGS)
     if b is None:
         return None
-    kk = pick(k, -2, 4)
+    kk = pick(k, -1, 3)
     if kk is None:
         return None
     if name in NOARG_COPY or name in NOARG_QUERY:
@@ -253,12 +273,13 @@ def h_simple(ti: int, si: int, ri: int, m: int, ai: int, bi: int, k: int):
     elif name == 'to_str':
         if bi or kk < 0:
             return None
-        spec = (None, '>5', '^4:red', ' -<6:bold', 'x5', ':underline')[ai]
+        kk = kk * 2 + 1
+        spec = (None, '>5', '^4:red', ' -<6:bold', 'x5')[ai]
         bad = both(s, call(name, spec, bool(kk & 1), bool(kk & 2), bool(kk & 4)), call(name, spec, bool(kk & 1), bool(kk & 2), bool(kk & 4)))
     elif name == '__format__':
         if bi or kk:
             return None
-        spec = ('', '>5', '^4:red', ' -<6:bold', 'x5', ':underline')[ai]
+        spec = ('', '>5', '^4:red', ' -<6:bold', ':underline')[ai]
         bad = both(s, lambda o: format(o, spec), lambda o: format(o, spec))
     elif name == '__iter__':
         if ai or bi or kk:
@@ -375,8 +396,8 @@ def h_ctor(src: int, ti: int, si: int, ri: int, k: int):
 
 
 BOUNDS = {
-    'quick': 'receivers: 5 texts x 4 settings on every canonical range; range methods with ALL integer bounds / None; index methods with ALL integers; '
-             'all other shared methods (by introspection) with arguments from a 6-string palette and integers -2..4; constructor: 3 source kinds x 4 settings lists',
+    'quick': 'receivers: 3 texts x 2 settings lists on 4 ranges (first char, whole, last char, inner); range methods with ALL integer bounds / None; index methods with ALL integers; '
+             'all other shared methods (by introspection) with arguments from a 5-string palette and integers -1..3; constructor: 3 source kinds x 4 settings lists',
     'thorough': 'same (the product is exhausted in quick); thorough adds nothing but the larger budgets',
 }
 OUTSIDE = 'receivers and arguments outside the palettes (AnsiStr construction forces realisation of the rendering, so texts are enumerated)'
@@ -388,15 +409,22 @@ def obligations(tier):
     obs = [selftest_ob()]
     obs.append(Ob('introspect', h_introspect, {}, need=('all-shared-methods-covered',), budget=60, bounds='dir(AnsiStr) & dir(AnsiString)', kinds=KINDS))
     for m in range(5):
-        for ti in (0, 1, 3):
+        for ti in (0, 1, 2):
             f = dict(m=m, ti=ti)
-            if ti == 3:
+            if ti == 2:
                 f.update(si=0, ri=0)
             obs.append(Ob('range/m%d/t%d' % (m, ti), h_range, f, need=('range-method',), budget=1500, bounds='text %r' % TEXTS[ti], kinds=KINDS))
     for m in range(3):
         obs.append(Ob('index/m%d' % m, h_index, dict(m=m), need=('index-method',), budget=900, bounds='5 texts', kinds=KINDS))
-    n_methods = len(NOARG_COPY + NOARG_QUERY + STR_ARG + SUB_ARGS) + 31
-    for m in range(n_methods):
-        obs.append(Ob('method/%d' % m, h_simple, dict(m=m), need=('method',), budget=900, bounds='shared method #%d, 5 texts' % m, kinds=KINDS))
+    for m, nm in enumerate(SIMPLE_NAMES):
+        f = dict(m=m)
+        u = uses(nm)
+        if 'a' not in u:
+            f['ai'] = 0
+        if 'b' not in u:
+            f['bi'] = 0
+        if 'k' not in u:
+            f['k'] = 0
+        obs.append(Ob('method/%s' % nm, h_simple, f, need=('method',), budget=900, bounds='shared method %s, 5 texts' % nm, kinds=KINDS))
     obs.append(Ob('ctor', h_ctor, {}, need=('ctor',), budget=900, bounds='3 sources x 4 settings lists x receivers', kinds=KINDS))
     return obs
